@@ -23,6 +23,9 @@ Nrc(n, bp, vs) == [P("NRC-CONST", n, bp, -1) EXCEPT !.dct = U8, !.cvs = vs]
 System(n, bp, dop, kind) == [P("SYSTEM", n, bp, -1) EXCEPT !.dop = dop, !.sys = kind]
 Case(n, lo, hi, st) == [n |-> n, lo |-> lo, hi |-> hi, st |-> st]
 LenKey(n, bp, bi, dop) == [P("LENGTH-KEY", n, bp, bi) EXCEPT !.dop = dop]
+Row(n, key, st) == [n |-> n, key |-> key, st |-> st]
+TabKey(n, bp, tab) == [P("TABLE-KEY", n, bp, -1) EXCEPT !.dop = tab]
+TabStruct(n, bp, tab, keyname) == [P("TABLE-STRUCT", n, bp, -1) EXCEPT !.dop = tab, !.sys = keyname]
 
 SID == Const("sid", 0, -1, U8, IntV(34))
 RQ == <<34, 16, 32>>
@@ -64,6 +67,10 @@ Item == Struct(<<Value("a", -1, -1, SimpleA(U8, {IntV(1), IntV(2)}))>>, -1)
 \* an item that ends in a terminated string: shows whether the end-of-PDU flag is handled per item
 ItemT == Struct(<<Value("t", -1, -1, SimpleA(MinMax("ascii", 0, 3, "ZERO"), {TextV(<<65>>), TextV(<<65, 66, 67>>)}))>>, -1)
 Two == Struct(<<Value("a", -1, -1, Simple(U8)), Value("b", -1, -1, SimpleA(U8, {IntV(7)}))>>, -1)
+\* (one table with data-object rows, one with structure rows: a set of values cannot mix integers and dictionaries)
+Tab1 == [k |-> "table", kdct |-> U8, rows |-> <<Row("row1", 1, SimpleA(U8, {IntV(5), IntV(200)})),
+                                                 Row("row2", 2, SimpleA(Std("uint", "NONE", 16, TRUE), {IntV(4660)})), Row("row3", 7, NoDop)>>]
+Tab2 == [k |-> "table", kdct |-> Std("uint", "NONE", 16, TRUE), rows |-> <<Row("rowA", 258, Item), Row("rowB", 3, Two)>>]
 Shapes(i) == {
     <<Value(Nm("p", i), -1, -1, Simple(U8))>>,
     <<Value(Nm("p", i), 3, -1, Simple(U8))>>,                                    \* explicit position (gap or overlap)
@@ -83,6 +90,9 @@ Shapes(i) == {
                                          Value("c", 0, 2, SimpleA(Std("uint", "NONE", 2, TRUE), {IntV(1), IntV(3)}))>>, -1))>>,
     \* an explicitly positioned value followed by a field that reads to the end of the PDU
     <<Value(Nm("p", i), 3, -1, Simple(U8)), Value(Nm("f", i), -1, -1, [k |-> "eopfield", st |-> Item])>>,
+    \* a table: the key selects the row, the row's data object / structure describes the content; row3 has neither
+    <<TabKey(Nm("k", i), -1, Tab1), TabStruct(Nm("t", i), -1, Tab1, Nm("k", i))>>,
+    <<TabKey(Nm("k", i), -1, Tab2), TabStruct(Nm("t", i), -1, Tab2, Nm("k", i))>>,
     \* a DTC object: 24 bit trouble codes, of which the description defines three
     <<Value(Nm("d", i), -1, -1, [k |-> "dtc", dct |-> Std("uint", "NONE", 24, TRUE), codes |-> <<1, 66051, 16777215>>])>>,
     <<Value(Nm("d", i), -1, 4, [k |-> "dtc", dct |-> Std("uint", "NONE", 12, FALSE), codes |-> <<2, 291>>])>>,
@@ -115,7 +125,9 @@ Shapes(i) == {
   }
 \* an end-marker field whose marker no parameter describes makes sense only at the end of the message
 Inner(i) == {sh \in Shapes(i) : ~(Len(sh) = 1 /\ sh[1].dop.k = "demfield")}
-PickC1 == \E a \in Shapes(1) : Pick(D(<<SID>> \o a))
+\* ... and a table key placed after the content it selects (explicit positions; nothing may follow: it would read the key)
+PickC1 == \/ \E a \in Shapes(1) : Pick(D(<<SID>> \o a))
+          \/ Pick(D(<<SID, TabKey("k1", 3, Tab1), TabStruct("t1", 1, Tab1, "k1")>>))
 PickC2 == \E a \in Inner(1), b \in Shapes(2) : Pick(D(<<SID>> \o a \o b))
 PickC3 == \E a \in Inner(1), b \in Inner(2), c \in Shapes(3) : Pick(D(<<SID>> \o a \o b \o c))
 
